@@ -77,4 +77,45 @@ theorem honest_server_resumes (content : Bytes) (good : Bytes → Bool) (hg : go
   simp [install, probStatus, download, downloadLoop, downloadFile, downloadResume, remoteSize, request, honest,
     h0, h1, hg, hlen, hne, hk0, hk2, hnlt, hc0, List.take_append_drop]
 
+/-- HISTORIES: whatever sequence of invocations is made on one install directory (any flags, any server behaviour, each
+  starting from whatever the previous ones left on disk), everything ever extracted along the way has the published
+  checksum -/
+theorem history_extracts_only_verified (good : Bytes → Bool) (calls : List Call) (w : World) :
+    ∃ bs, (runCalls good calls w).1.extracted = w.extracted ++ bs ∧ ∀ b ∈ bs, good b = true := by
+  induction calls generalizing w with
+  | nil => exact ⟨[], by simp [runCalls], by simp⟩
+  | cons c cs ih =>
+    obtain ⟨bs, hbs, hg⟩ := ih (install c.srv good c.force c.noClean { w with reqs := 0, log := [] }).1
+    rcases extract_implies_sha c.srv good c.force c.noClean { w with reqs := 0, log := [] } with he | ⟨b, hb, he⟩
+    · exact ⟨bs, by simp only [runCalls]; rw [hbs, he], hg⟩
+    · refine ⟨b :: bs, by simp only [runCalls]; rw [hbs, he]; simp, ?_⟩
+      intro x hx
+      rcases List.mem_cons.mp hx with rfl | hx
+      · exact hb
+      · exact hg x hx
+
+/-- ... and the dataset is marked installed at the end of a history only if it was marked before it or some invocation of
+  the history extracted a verified archive -/
+theorem history_marked_implies (good : Bytes → Bool) (calls : List Call) (w : World)
+    (h : (runCalls good calls w).1.installed = true) :
+    w.installed = true ∨ ∃ b bs, good b = true ∧ (runCalls good calls w).1.extracted = w.extracted ++ b :: bs := by
+  induction calls generalizing w with
+  | nil => exact Or.inl (by simpa [runCalls] using h)
+  | cons c cs ih =>
+    simp only [runCalls] at h ⊢
+    obtain ⟨bs, hbs, _⟩ := history_extracts_only_verified good cs (install c.srv good c.force c.noClean { w with reqs := 0, log := [] }).1
+    rcases ih _ h with h1 | ⟨b, bs', hb, he⟩
+    · rcases marked_implies c.srv good c.force c.noClean { w with reqs := 0, log := [] } h1 with ⟨b, hb, he⟩ | ⟨hw, _, _⟩
+      · exact Or.inr ⟨b, bs, hb, by rw [hbs, he]; simp⟩
+      · exact Or.inl hw
+    · rcases extract_implies_sha c.srv good c.force c.noClean { w with reqs := 0, log := [] } with he1 | ⟨b1, hb1, he1⟩
+      · exact Or.inr ⟨b, bs', hb, by rw [he, he1]⟩
+      · exact Or.inr ⟨b1, b :: bs', hb1, by rw [he, he1]; simp⟩
+
+/-- a history made of one invocation is that invocation -/
+theorem history_single (good : Bytes → Bool) (c : Call) (w : World) :
+    runCalls good [c] w = ((install c.srv good c.force c.noClean { w with reqs := 0, log := [] }).1,
+                           [(install c.srv good c.force c.noClean { w with reqs := 0, log := [] }).2]) := by
+  simp [runCalls]
+
 end Kapture.C17
